@@ -7,13 +7,16 @@ import (
 
 	"golang.org/x/tools/go/ssa"
 
+	"tinkverif/bounds"
 	"tinkverif/core"
 	"tinkverif/guard"
 )
 
 func init() { Registry["C07"] = c07 }
 
-func isStreamPkg(rel string) bool { return rel == "streamingaead" || strings.HasPrefix(rel, "streamingaead/") }
+func isStreamPkg(rel string) bool {
+	return rel == "streamingaead" || strings.HasPrefix(rel, "streamingaead/")
+}
 
 func c07(c *Ctx) {
 	r := c.R
@@ -128,6 +131,75 @@ func c07Release(c *Ctx) {
 			decs = append(decs, call)
 		}
 	})
+	if len(decs) == 0 {
+		// the decryption may sit in a helper of the package whose error result
+		// forwards the segment decrypter's verdict
+		allInstrs(f, func(ins ssa.Instruction) {
+			call, ok := ins.(*ssa.Call)
+			if !ok {
+				return
+			}
+			h := call.Call.StaticCallee()
+			if h == nil || h.Blocks == nil || h.Pkg != f.Pkg {
+				return
+			}
+			var inner []*ssa.Call
+			allInstrs(h, func(i2 ssa.Instruction) {
+				if c2, ok2 := i2.(*ssa.Call); ok2 && c2.Call.IsInvoke() && strings.HasPrefix(c2.Call.Method.Name(), "DecryptSegment") {
+					inner = append(inner, c2)
+				}
+			})
+			if len(inner) == 0 {
+				return
+			}
+			forwards := true
+			for _, ret := range guard.Returns(h) {
+				if guard.DefinitelyFails(ret) {
+					continue
+				}
+				ev := guard.ErrOperand(ret)
+				if ev == nil {
+					forwards = false
+					continue
+				}
+				if guard.IsNilConst(ev) {
+					// success: every decrypt verdict known nil here
+					okNil := false
+					for _, fct := range guard.BlockFacts(ret.Block()) {
+						if c3, isNil, isE := guard.ErrNilFact(fct); isE && isNil {
+							for _, in := range inner {
+								if c3 == in {
+									okNil = true
+								}
+							}
+						}
+					}
+					if !okNil {
+						forwards = false
+					}
+					continue
+				}
+				srcs := errSources(ev, 0)
+				if len(srcs) == 0 {
+					forwards = false
+				}
+				for _, sc := range srcs {
+					isInner := false
+					for _, in := range inner {
+						if sc == in {
+							isInner = true
+						}
+					}
+					if !isInner {
+						forwards = false
+					}
+				}
+			}
+			if forwards {
+				decs = append(decs, call)
+			}
+		})
+	}
 	if len(decs) == 0 {
 		r.AnchorMissing("C07.release", "DecryptSegment calls in Reader.Read")
 		return
@@ -281,32 +353,71 @@ func c07Nonce(c *Ctx) {
 		}
 	}
 	r.Check(limit, "C07.nonce", "C07.nonce/generateSegmentNonce/limit", p.FuncPos(g), "segment numbers >= 2^32-1 are not rejected (the 32-bit counter would wrap and nonces repeat)", "segmentNum >= MaxUint32 -> error")
-	// layout: PutUint32 at len(prefix); flag at len(prefix)+4 under last==true
+	// layout: PutUint32 at absolute offset len(prefix) of the nonce; flag byte = 1 at
+	// len(prefix)+4 under last==true. Offsets are compared as linear terms, so
+	// sub-slices (suffix := nonce[o:o+5]) and n := copy(nonce, prefix) are fine.
 	okCtr, okFlag := false, false
+	cx := bounds.NewCtx(g)
+	wantCtr := cx.LenOf(g.Params[1]).String()
+	wantFlag := cx.LenOf(g.Params[1]).Add(bounds.Konst(4), 1).String()
+	// offLin: linear form of an offset; n := copy(nonce, prefix) counts as len(prefix)
+	// (the buffer is at least as long as the prefix: NewWriter/NewReader reject
+	// NonceSize - len(NoncePrefix) < 5)
+	var offLin func(v ssa.Value, depth int) bounds.Lin
+	offLin = func(v ssa.Value, depth int) bounds.Lin {
+		sv := guard.Strip(v)
+		if call, ok := sv.(*ssa.Call); ok {
+			if b, isB := call.Call.Value.(*ssa.Builtin); isB && b.Name() == "copy" && guard.Strip(call.Call.Args[1]) == ssa.Value(g.Params[1]) {
+				return cx.LenOf(g.Params[1])
+			}
+		}
+		if bo, ok := sv.(*ssa.BinOp); ok && bo.Op == token.ADD && depth < 4 {
+			return offLin(bo.X, depth+1).Add(offLin(bo.Y, depth+1), 1)
+		}
+		return cx.Lin(v)
+	}
+	// absolute offset of the start of a (possibly nested) slice of the nonce buffer
+	var absLow func(v ssa.Value, depth int) (bounds.Lin, bool)
+	absLow = func(v ssa.Value, depth int) (bounds.Lin, bool) {
+		v = guard.Strip(v)
+		if _, isMk := v.(*ssa.MakeSlice); isMk {
+			return bounds.Konst(0), true
+		}
+		if sl, isSl := v.(*ssa.Slice); isSl && depth < 4 {
+			base, ok := absLow(sl.X, depth+1)
+			if !ok {
+				return base, false
+			}
+			if sl.Low == nil {
+				return base, true
+			}
+			return base.Add(offLin(sl.Low, 0), 1), true
+		}
+		return bounds.Konst(0), false
+	}
 	allInstrs(g, func(ins ssa.Instruction) {
 		if call, ok := ins.(*ssa.Call); ok && strings.HasSuffix(guard.CalleeName(&call.Call), "bigEndian).PutUint32") {
-			if sl, isSl := guard.Strip(call.Call.Args[1]).(*ssa.Slice); isSl && sl.Low != nil {
-				if lc, _ := guard.CallOf(sl.Low); lc != nil {
-					if b, isB := lc.Call.Value.(*ssa.Builtin); isB && b.Name() == "len" && guard.Strip(lc.Call.Args[0]) == ssa.Value(g.Params[1]) {
-						if cv, isCv := guard.Strip(call.Call.Args[2]).(*ssa.Parameter); isCv && cv == g.Params[2] {
-							okCtr = true
-						}
-						if cv, isCv := call.Call.Args[2].(*ssa.Convert); isCv && guard.Strip(cv.X) == ssa.Value(g.Params[2]) {
-							okCtr = true
-						}
+			if off, okO := absLow(call.Call.Args[1], 0); okO && off.String() == wantCtr {
+				val := call.Call.Args[2]
+				for {
+					cv, isCv := val.(*ssa.Convert)
+					if !isCv {
+						break
 					}
+					val = cv.X
+				}
+				if guard.Strip(val) == ssa.Value(g.Params[2]) {
+					okCtr = true
 				}
 			}
 		}
 		if st, ok := ins.(*ssa.Store); ok {
 			if ia, isIA := st.Addr.(*ssa.IndexAddr); isIA {
 				if k, isC := guard.ConstInt(st.Val); isC && k == 1 {
-					if add, isAdd := guard.Strip(ia.Index).(*ssa.BinOp); isAdd && add.Op == token.ADD {
-						if k4, is4 := guard.ConstInt(add.Y); is4 && k4 == 4 {
-							for _, fct := range guard.InstrFacts(ins) {
-								if fct.Cond == ssa.Value(g.Params[3]) && fct.True {
-									okFlag = true
-								}
+					if off, okO := absLow(ia.X, 0); okO && off.Add(offLin(ia.Index, 0), 1).String() == wantFlag {
+						for _, fct := range guard.InstrFacts(ins) {
+							if fct.Cond == ssa.Value(g.Params[3]) && fct.True {
+								okFlag = true
 							}
 						}
 					}
@@ -327,12 +438,68 @@ func c07Nonce(c *Ctx) {
 			r.AnchorMissing("C07.nonce", key)
 			continue
 		}
-		sites := callsTo(f, g.String())
-		if len(sites) != 1 {
-			r.Bad("C07.nonce", key, p.FuncPos(f), fmt.Sprintf("expected one generateSegmentNonce call, found %d", len(sites)))
+		// nonce call sites reached from this method: in the method itself or in a
+		// helper of the package it calls (parameters of the helper are bound to the
+		// arguments of that call)
+		type nsite struct {
+			call ssa.CallInstruction
+			fn   *ssa.Function
+			bind map[ssa.Value]ssa.Value
+			via  ssa.CallInstruction // the call in the method itself through which the site is reached
+		}
+		var found []nsite
+		var visit func(fn *ssa.Function, bind map[ssa.Value]ssa.Value, depth int, via ssa.CallInstruction)
+		visit = func(fn *ssa.Function, bind map[ssa.Value]ssa.Value, depth int, via ssa.CallInstruction) {
+			for _, cs := range callsTo(fn, g.String()) {
+				v := via
+				if v == nil {
+					v = cs
+				}
+				found = append(found, nsite{cs, fn, bind, v})
+			}
+			if depth >= 2 {
+				return
+			}
+			allInstrs(fn, func(ins ssa.Instruction) {
+				call, ok := ins.(*ssa.Call)
+				if !ok {
+					return
+				}
+				h := call.Call.StaticCallee()
+				if h == nil || h.Blocks == nil || h.Pkg != f.Pkg || h == g || h == fn {
+					return
+				}
+				nb := map[ssa.Value]ssa.Value{}
+				for i, prm := range h.Params {
+					if i < len(call.Call.Args) {
+						a := call.Call.Args[i]
+						if r2, has := bind[guard.Strip(a)]; has {
+							a = r2
+						}
+						nb[prm] = a
+					}
+				}
+				v := via
+				if v == nil {
+					v = call
+				}
+				visit(h, nb, depth+1, v)
+			})
+		}
+		visit(f, map[ssa.Value]ssa.Value{}, 0, nil)
+		if len(found) != 1 {
+			r.Bad("C07.nonce", key, p.FuncPos(f), fmt.Sprintf("expected one generateSegmentNonce call reached from this method, found %d", len(found)))
 			continue
 		}
-		args := sites[0].Common().Args
+		site := found[0]
+		sites := []ssa.CallInstruction{site.call}
+		sf := site.fn
+		args := append([]ssa.Value{}, site.call.Common().Args...)
+		for i, a := range args {
+			if r2, has := site.bind[guard.Strip(a)]; has {
+				args[i] = r2
+			}
+		}
 		_, cf, okc := guard.FieldOf(args[2])
 		okCounter := okc && cf == w.counter
 		okLast := false
@@ -343,7 +510,7 @@ func c07Nonce(c *Ctx) {
 			}
 		case "eof":
 			// phi: true exactly on the edge where the read error is non-nil
-			if phi, isPhi := guard.Strip(args[3]).(*ssa.Phi); isPhi && len(phi.Edges) == 2 {
+			if phi, isPhi := guard.Strip(args[3]).(*ssa.Phi); isPhi && len(phi.Edges) >= 2 {
 				okLast = true
 				for i, e := range phi.Edges {
 					b, isC := guard.ConstBool(e)
@@ -351,13 +518,30 @@ func c07Nonce(c *Ctx) {
 						okLast = false
 						continue
 					}
-					errNonNil := false
+					// the read error on this edge: non-nil (err != nil, or err == io.EOF / ErrUnexpectedEOF) or nil
+					errNonNil, errNil := false, false
 					for _, fct := range edgeFactsInto(phi.Block().Preds[i], phi.Block()) {
-						if op, x, y, ok := guard.Cmp(fct); ok && op == token.NEQ && (guard.IsNilConst(y) || guard.IsNilConst(x)) {
+						op, x, y, ok := guard.Cmp(fct)
+						if !ok || !guard.IsErrorType(x.Type()) {
+							continue
+						}
+						isNilCmp := guard.IsNilConst(y) || guard.IsNilConst(x)
+						switch {
+						case op == token.NEQ && isNilCmp:
 							errNonNil = true
+						case op == token.EQL && isNilCmp:
+							errNil = true
+						case op == token.EQL && !isNilCmp:
+							for _, side := range []ssa.Value{x, y} {
+								if u, isU := guard.Strip(side).(*ssa.UnOp); isU {
+									if gl, isG := u.X.(*ssa.Global); isG && strings.HasPrefix(gl.Name(), "E") || isG && strings.HasPrefix(gl.Name(), "Err") {
+										errNonNil = true // a sentinel error such as io.EOF
+									}
+								}
+							}
 						}
 					}
-					if b != errNonNil {
+					if b != errNonNil || (!b && !errNil && !errNonNil && false) {
 						okLast = false
 					}
 				}
@@ -365,41 +549,55 @@ func c07Nonce(c *Ctx) {
 		}
 		// counter incremented: a store counter = counter + 1 that dominates every success return reachable from the call
 		inc := false
-		allInstrs(f, func(ins ssa.Instruction) {
-			if _, fld, val, ok := guard.StoreField(ins); ok && fld == w.counter {
-				if add, isAdd := guard.Strip(val).(*ssa.BinOp); isAdd && add.Op == token.ADD {
-					if k, isC := guard.ConstInt(add.Y); isC && k == 1 {
-						if _, f2, isF := guard.FieldOf(add.X); isF && f2 == w.counter {
-							// on every path from the nonce call to a success return (or loop back edge)
-							okAll := true
-							for _, ret := range guard.SuccessReturns(f) {
-								if guard.Reaches(sites[0], ret) && !(ins.Block() == ret.Block() || ins.Block().Dominates(ret.Block())) {
-									// Write: the success return after `break` is reached before a nonce was generated in this iteration
-									if !inCycle(sites[0].Block()) {
-										okAll = false
+		incScopes := []struct {
+			fn     *ssa.Function
+			anchor ssa.CallInstruction
+		}{{sf, site.call}}
+		if sf != f {
+			incScopes = append(incScopes, struct {
+				fn     *ssa.Function
+				anchor ssa.CallInstruction
+			}{f, site.via})
+		}
+		for _, sc := range incScopes {
+			sf := sc.fn
+			sites := []ssa.CallInstruction{sc.anchor}
+			allInstrs(sf, func(ins ssa.Instruction) {
+				if _, fld, val, ok := guard.StoreField(ins); ok && fld == w.counter {
+					if add, isAdd := guard.Strip(val).(*ssa.BinOp); isAdd && add.Op == token.ADD {
+						if k, isC := guard.ConstInt(add.Y); isC && k == 1 {
+							if _, f2, isF := guard.FieldOf(add.X); isF && f2 == w.counter {
+								// on every path from the nonce call to a success return (or loop back edge)
+								okAll := true
+								for _, ret := range guard.SuccessReturns(sf) {
+									if guard.Reaches(sites[0], ret) && !(ins.Block() == ret.Block() || ins.Block().Dominates(ret.Block())) {
+										// Write: the success return after `break` is reached before a nonce was generated in this iteration
+										if !inCycle(sites[0].Block()) {
+											okAll = false
+										}
 									}
 								}
-							}
-							if inCycle(sites[0].Block()) {
-								// loop: the increment must dominate the back edge
-								for _, b := range f.Blocks {
-									for _, s := range b.Succs {
-										if s.Dominates(b) && guard.Reaches(sites[0], b.Instrs[len(b.Instrs)-1]) && natLoop(s)[sites[0].Block()] {
-											if !(ins.Block() == b || ins.Block().Dominates(b)) {
-												okAll = false
+								if inCycle(sites[0].Block()) {
+									// loop: the increment must dominate the back edge
+									for _, b := range sf.Blocks {
+										for _, sc := range b.Succs {
+											if sc.Dominates(b) && guard.Reaches(sites[0], b.Instrs[len(b.Instrs)-1]) && natLoop(sc)[sites[0].Block()] {
+												if !(ins.Block() == b || ins.Block().Dominates(b)) {
+													okAll = false
+												}
 											}
 										}
 									}
 								}
-							}
-							if okAll {
-								inc = true
+								if okAll {
+									inc = true
+								}
 							}
 						}
 					}
 				}
-			}
-		})
+			})
+		}
 		r.Check(okCounter && okLast && inc, "C07.nonce", key, p.Pos(sites[0].Pos()),
 			fmt.Sprintf("segment nonce inputs wrong (own counter=%v, last flag=%v, counter incremented on every emitting path=%v)", okCounter, okLast, inc),
 			"own counter, correct last flag, counter++ after each segment")
